@@ -124,6 +124,28 @@ impl Prop for C13 {
                     }
                 }
             }),
+            Scope::new("scales", "catalogue entry x offsets (0,0), (3,2), (17,9) x scales 0.5, 1, 2.5, 3, 5, 7, 10, 20, 37.5: the same circle, scaled", |f| {
+                let n = shapes::catalog().len();
+                for i in 0..n {
+                    for (x, y) in [(0i64, 0i64), (3, 2), (17, 9)] {
+                        for sc in [50i64, 100, 250, 300, 500, 700, 1000, 2000, 3750] {
+                            f(Case::sn("", vec![i as i64, x, y, 0, sc]));
+                        }
+                    }
+                }
+            }),
+            Scope::new("decoys", "catalogue entry x look-alike made of the same characters in another layout (last row moved one column, first row moved one column, rows in reverse order, a row dropped) placed above the drawing with 1..2 blank rows, left aligned or 3 columns to the right; the look-alike and the drawing are also converted alone first, on the same thread", |f| {
+                let n = shapes::catalog().len();
+                for i in 0..n {
+                    for kind in 0..5i64 {
+                        for gap in 1..=2i64 {
+                            for dx in [0i64, 3] {
+                                f(Case::sn("decoy", vec![i as i64, kind, gap, dx]));
+                            }
+                        }
+                    }
+                }
+            }),
         ]
     }
     fn check(&self, scope: &str, case: &Case, cx: &mut Cx) {
@@ -141,7 +163,61 @@ impl Prop for C13 {
             cx.outcome(&cat.len());
             return;
         }
+        if scope == "decoys" {
+            let (i, kind, gap, dx) = (case.n[0] as usize, case.n[1], case.n[2] as usize, case.n[3] as usize);
+            let art = &cat[i];
+            let mut rows: Vec<String> = art.split('\n').map(|r| r.to_string()).collect();
+            let last = rows.len() - 1;
+            match kind {
+                0 => rows[last] = format!(" {}", rows[last]),
+                1 => rows[0] = format!(" {}", rows[0]),
+                2 => rows.reverse(),
+                3 => {
+                    if rows[0].starts_with(' ') {
+                        rows[0] = rows[0][1..].to_string()
+                    } else {
+                        rows[last] = format!("  {}", rows[last])
+                    }
+                }
+                _ => {
+                    if rows.len() > 1 {
+                        rows.remove(last);
+                    } else {
+                        rows[0] = rows[0].chars().rev().collect();
+                    }
+                }
+            }
+            let decoy = enumr::shift(&rows.join("\n"), 1, 0);
+            if decoy.trim() == art.trim() {
+                return;
+            }
+            // history on this thread: the look-alike first, then the drawing alone
+            let dd = match cx.conv_doc(&decoy, &Sett::bare()) {
+                Some(d) => d,
+                None => return,
+            };
+            if dd.count(Kind::Circle) > 0 {
+                cx.tally("decoy is itself recognised as a circle: skipped");
+                return;
+            }
+            let alone = match cx.conv_doc(art, &Sett::bare()) {
+                Some(d) => d,
+                None => return,
+            };
+            cx.compared();
+            if alone.count(Kind::Circle) != 1 || alone.elems.len() != 1 {
+                cx.fail("not-one-circle", format!("catalogue circle #{} converted right after a look-alike ({:?}) on the same thread: [{}]", i, decoy,
+                    alone.elems.iter().take(8).map(|e| e.brief()).collect::<Vec<_>>().join(" ; ")));
+                return;
+            }
+            let (page, _off) = enumr::below(&decoy, &enumr::shift(art, dx, 0), gap);
+            let desc = format!("catalogue circle #{} below a look-alike made of the same characters (variant {}, {} blank rows, {} columns right)", i, kind, gap, dx);
+            self.judge_with_context(cx, &page, &decoy, &desc, i);
+            return;
+        }
         let (i, ox, oy, ctx) = (case.n[0] as usize, case.n[1] as usize, case.n[2] as usize, case.n[3]);
+        let sc = case.n.get(4).map(|v| *v as f64 / 100.0).unwrap_or(8.0);
+        let (k, tol) = (8.0 / sc, if case.n.len() > 4 { 1e-3 } else { 1e-6 });
         let art = &cat[i];
         let (w, h) = enumr::extent(art);
         // cells of the drawing
@@ -178,14 +254,18 @@ impl Prop for C13 {
             _ => (placed, None, 0, 0),
         };
         let _ = (w, h);
-        let d = match cx.conv_doc(&input, &Sett::bare()) {
+        let mut d = match cx.conv_doc(&input, &Sett::bare_scale(sc as f32)) {
             Some(d) => d,
             None => return,
         };
+        if k != 1.0 {
+            // bring the rendering back to the default scale: every length must have been multiplied by scale/8
+            d.elems = d.elems.iter().map(|e| e.scaled(k)).collect();
+        }
         cx.compared();
         let circles: Vec<_> = d.of(Kind::Circle).collect();
         let others: Vec<svg::El> = d.elems.iter().filter(|e| e.kind != Kind::Circle).cloned().collect();
-        let desc = format!("catalogue circle #{} ({} cells wide) at ({},{}) context {}", i, n, ox, oy, ctx);
+        let desc = format!("catalogue circle #{} ({} cells wide) at ({},{}) context {} scale {}", i, n, ox, oy, ctx, sc);
         if circles.len() != 1 {
             cx.fail(
                 "not-one-circle",
@@ -219,7 +299,7 @@ impl Prop for C13 {
         let (ccx, ccy, r) = (c.xs[0], c.ys[0], c.lens[0]);
         let left = 8.0 * (ox + c0) as f64;
         let (want_r, want_cx) = if slash { (4.0 * n, left + 4.0 * n) } else { (4.0 * (n - 1.0), left + 4.0 + 4.0 * (n - 1.0)) };
-        if (r - want_r).abs() > 1e-6 || (ccx - want_cx).abs() > 1e-6 {
+        if (r - want_r).abs() > tol || (ccx - want_cx).abs() > tol {
             cx.fail(
                 "circle-extent",
                 format!("{}: circle cx={} r={} but the drawing's extent gives cx={} r={}", desc, ccx, r, want_cx, want_r),
@@ -249,6 +329,6 @@ impl Prop for C13 {
             cx.fail("circle-class", format!("{}: circle classes {:?}", desc, c.cls));
             return;
         }
-        cx.outcome(&(i, ctx));
+        cx.outcome(&(i, ctx, (sc * 100.0) as i64));
     }
 }
